@@ -8,37 +8,36 @@ namespace Sshuttle.ClientMain
 open Sshuttle.ClientTrace
 
 /-- Facts about a trace that do not depend on the rest of the world. -/
-def Good (t : List Ev) : Prop := (monOf t).bad = false ∧ (monOf t).closed = false
+def Good (t : List Ev) : Prop :=
+  (monOf t).bad = false ∧ (monOf t).closed = false ∧ (monOf t).dead = false
 
-/-- The monitor has not complained, the channel is open, and while the ROUTES callback is
-installed the handshake has been verified and the helper has not been started. -/
+/-- The monitor has not complained, the channel is open, ssh has not been seen dead, and while
+the ROUTES callback is installed the handshake has been verified and the helper has not been
+started. -/
 def Inv (w : World) : Prop :=
   Good w.trace ∧ (w.routesCb = true → (monOf w.trace).hs = true ∧ (monOf w.trace).starts = 0)
 
-theorem plain_step (e : Ev) (m : Mon) (he : Plain e) (hc : m.closed = false) :
-    (m.step e).bad = m.bad ∧ (m.step e).closed = false ∧ (m.step e).starts = m.starts ∧
+theorem plain_step (e : Ev) (m : Mon) (he : Plain e) (hc : m.closed = false) (hd : m.dead = false) :
+    (m.step e).bad = m.bad ∧ (m.step e).closed = false ∧ (m.step e).dead = false ∧
+    (m.step e).starts = m.starts ∧
     (m.hs = true → (m.step e).hs = true) ∧ (m.routes = true → (m.step e).routes = true) ∧
     (m.confirmed = true → (m.step e).confirmed = true) := by
-  obtain ⟨h1, h2, h3, h4⟩ := he
-  cases e <;> simp_all [Mon.step]
+  obtain ⟨h1, h2, h3, h4, h5, h6⟩ := he
+  cases e <;> simp_all [Mon.step, Mon.core]
 
-theorem run_step (i : Nat) (m : Mon) : m.step (.run i) = m := rfl
-
-theorem Inv.snoc {t : List Ev} {cb : Bool} {e : Ev} (he : Plain e ∨ ∃ i, e = .run i)
+theorem Inv.snoc {t : List Ev} {cb : Bool} {e : Ev} (he : Plain e)
     (h : Good t ∧ (cb = true → (monOf t).hs = true ∧ (monOf t).starts = 0)) :
     Good (t ++ [e]) ∧ (cb = true → (monOf (t ++ [e])).hs = true ∧ (monOf (t ++ [e])).starts = 0) := by
   unfold Good at h ⊢
   simp only [monOf_snoc]
-  rcases he with he | ⟨i, rfl⟩
-  · obtain ⟨⟨hb, hc⟩, h3⟩ := h
-    have := plain_step e (monOf t) he hc
-    refine ⟨⟨by rw [this.1]; exact hb, this.2.1⟩, fun hcb => ?_⟩
-    exact ⟨this.2.2.2.1 (h3 hcb).1, by rw [this.2.2.1]; exact (h3 hcb).2⟩
-  · simp only [run_step]; exact h
+  obtain ⟨⟨hb, hc, hd⟩, h3⟩ := h
+  have := plain_step e (monOf t) he hc hd
+  refine ⟨⟨by rw [this.1]; exact hb, this.2.1, this.2.2.1⟩, fun hcb => ?_⟩
+  exact ⟨this.2.2.2.2.1 (h3 hcb).1, by rw [this.2.2.2.1]; exact (h3 hcb).2⟩
 
 theorem Inv.chain : Chain Inv where
-  act e w he h := Inv.snoc (Or.inl he) h
-  push e w he h := Inv.snoc (Or.inl he) h
+  act e w he h := Inv.snoc he h
+  push e w he h := Inv.snoc he h
   frame f hf w h := by
     obtain ⟨ht, hcb⟩ := hf w
     unfold Inv at h ⊢
@@ -47,9 +46,6 @@ theorem Inv.chain : Chain Inv where
     rcases hcb with hcb | hcb
     · rw [← hcb]; exact hc
     · rw [hcb] at hc; cases hc
-
-theorem Inv.run (i : Nat) (w : World) (h : Inv w) : Inv (push (.run i) w) :=
-  Inv.snoc (Or.inr ⟨i, rfl⟩) h
 
 /-- Ready to start the helper: verified, ROUTES delivered, not started, callback cleared. -/
 def Armed (w : World) : Prop :=
@@ -65,11 +61,12 @@ theorem fwStart_triple (sc : Script) :
   have hc := Inv.chain
   refine Triple.bind (R := fun _ => Inv) ?_ fun _ => ?_
   · refine Triple.act fun w hw => ?_
-    obtain ⟨⟨⟨hb, hcl⟩, hhs, hro, hst⟩, hcb⟩ := hw
+    obtain ⟨⟨⟨hb, hcl, hdd⟩, hhs, hro, hst⟩, hcb⟩ := hw
     have : Inv (actW (.fw .routes) w) := by
-      refine ⟨⟨?_, ?_⟩, fun h => ?_⟩
-      · simp [monOf_snoc, Mon.step, hb, hhs, hro, hst, hcl]
-      · simp [monOf_snoc, Mon.step, hcl]
+      refine ⟨⟨?_, ?_, ?_⟩, fun h => ?_⟩
+      · simp [monOf_snoc, Mon.step, Mon.core, hb, hhs, hro, hst, hcl, hdd]
+      · simp [monOf_snoc, Mon.step, Mon.core, hcl]
+      · simp [monOf_snoc, Mon.step, Mon.core, hdd]
       · simp [hcb] at h
     exact ⟨this, this⟩
   · refine Triple.bind (R := fun _ => Inv) (Triple.ofPres Pres.getW) fun w => ?_
@@ -85,19 +82,20 @@ theorem fwStart_triple (sc : Script) :
     refine Triple.bind (R := fun _ => Inv) (Triple.ofPres (Pres.ite (Pres.raise _) (Pres.pure _))) fun _ => ?_
     refine Triple.mark fun w hw => ?_
     refine ⟨hc.push _ w (by simp [Plain]) hw, ?_⟩
-    simp [monOf_snoc, Mon.step]
+    simp [monOf_snoc, Mon.step, Mon.core]
 
 theorem serverready_triple (sc : Script) :
     Triple (fun w => Armed w ∧ w.routesCb = false) (serverready sc) (fun _ => Inv) Inv := by
   unfold serverready
   refine Triple.bind (fwStart_triple sc) fun _ => ?_
   refine Triple.act fun w hw => ?_
-  obtain ⟨⟨⟨hb, hcl⟩, h3⟩, hconf⟩ := hw
+  obtain ⟨⟨⟨hb, hcl, hdd⟩, h3⟩, hconf⟩ := hw
   have : Inv (actW .ready w) := by
-    refine ⟨⟨?_, ?_⟩, fun h => ?_⟩
-    · simp [monOf_snoc, Mon.step, hb, hconf]
-    · simp [monOf_snoc, Mon.step, hcl]
-    · simpa [monOf_snoc, Mon.step] using h3 h
+    refine ⟨⟨?_, ?_, ?_⟩, fun h => ?_⟩
+    · simp [monOf_snoc, Mon.step, Mon.core, hb, hconf, hdd]
+    · simp [monOf_snoc, Mon.step, Mon.core, hcl]
+    · simp [monOf_snoc, Mon.step, Mon.core, hdd]
+    · simpa [monOf_snoc, Mon.step, Mon.core] using h3 h
   exact ⟨this, this⟩
 
 theorem onroutes_triple (sc : Script) (data : Bytes) :
@@ -114,9 +112,9 @@ theorem onroutes_triple (sc : Script) (data : Bytes) :
 theorem Inv.routesOk (sc : Script) : RoutesOk Inv sc := by
   intro data w hw hcb
   refine (onroutes_triple sc data).world (fun _ _ h => h) (fun _ h => h) _ ?_
-  obtain ⟨⟨hb, hcl⟩, h3⟩ := hw
+  obtain ⟨⟨hb, hcl, hdd⟩, h3⟩ := hw
   obtain ⟨hhs, hst⟩ := h3 hcb
-  refine ⟨⟨?_, ?_⟩, ?_, ?_, ?_⟩ <;> simp [monOf_snoc, Mon.step, hb, hcl, hhs, hst]
+  refine ⟨⟨?_, ?_, ?_⟩, ?_, ?_, ?_⟩ <;> simp [monOf_snoc, Mon.step, Mon.core, hb, hcl, hhs, hst, hdd]
 
 /-- Before the handshake is verified: callback not installed, helper not started. -/
 def Early (w : World) : Prop :=
@@ -127,15 +125,15 @@ def Verified (w : World) : Prop := Early w ∧ (monOf w.trace).hs = true
 
 theorem Early.chain : Chain Early where
   act e w he h := by
-    have := Inv.snoc (cb := false) (Or.inl he) ⟨h.1, fun h => by cases h⟩
+    have := Inv.snoc (cb := false) he ⟨h.1, fun h => by cases h⟩
     refine ⟨this.1, h.2.1, ?_⟩
     simp only [actW_trace, monOf_snoc]
-    rw [(plain_step e _ he h.1.2).2.2.1]; exact h.2.2
+    rw [(plain_step e _ he h.1.2.1 h.1.2.2).2.2.2.1]; exact h.2.2
   push e w he h := by
-    have := Inv.snoc (cb := false) (Or.inl he) ⟨h.1, fun h => by cases h⟩
+    have := Inv.snoc (cb := false) he ⟨h.1, fun h => by cases h⟩
     refine ⟨this.1, h.2.1, ?_⟩
     simp only [push_trace, monOf_snoc]
-    rw [(plain_step e _ he h.1.2).2.2.1]; exact h.2.2
+    rw [(plain_step e _ he h.1.2.1 h.1.2.2).2.2.2.1]; exact h.2.2
   frame f hf w h := by
     obtain ⟨ht, hcb⟩ := hf w
     unfold Early at h ⊢
@@ -148,21 +146,43 @@ theorem Early.chain : Chain Early where
 theorem Verified.chain : Chain Verified where
   act e w he h :=
     ⟨Early.chain.act e w he h.1, by
-      simp only [actW_trace, monOf_snoc]; exact (plain_step e _ he h.1.1.2).2.2.2.1 h.2⟩
+      simp only [actW_trace, monOf_snoc]; exact (plain_step e _ he h.1.1.2.1 h.1.1.2.2).2.2.2.2.1 h.2⟩
   push e w he h :=
     ⟨Early.chain.push e w he h.1, by
-      simp only [push_trace, monOf_snoc]; exact (plain_step e _ he h.1.1.2).2.2.2.1 h.2⟩
+      simp only [push_trace, monOf_snoc]; exact (plain_step e _ he h.1.1.2.1 h.1.1.2.2).2.2.2.2.1 h.2⟩
   frame f hf w h := ⟨Early.chain.frame f hf w h.1, by rw [(hf w).1]; exact h.2⟩
 
 theorem Early.inv {w : World} (h : Early w) : Inv w :=
   ⟨h.1, fun hc => by rw [h.2.1] at hc; cases hc⟩
 
+/-- The start-up checks return the init string only if it is the genuine one. -/
+theorem startupChecks_triple (sc : Script) :
+    Triple Early (startupChecks sc) (fun init w => Early w ∧ init = Handshake.expected) Early := by
+  unfold startupChecks
+  have hc := Early.chain
+  refine Triple.bind (R := fun _ => Early) (Triple.ofPres (Pres.mapExc (pres_act hc sc (by simp [Plain])))) fun _ => ?_
+  refine Triple.bind (R := fun _ => Early) (Triple.ofPres (pres_frame hc (by by_frame))) fun _ => ?_
+  refine Triple.bind (R := fun _ => Early) (Triple.ofPres Pres.getW) fun w => ?_
+  refine Triple.bind (R := fun _ => Early) (Triple.ofPres (Pres.mapExc (pres_readInit hc sc _))) fun init => ?_
+  refine Triple.bind (R := fun _ => Early) (Triple.ofPres (pres_act hc sc (by simp [Plain]))) fun _ => ?_
+  refine Triple.bind (R := fun _ => Early)
+    (Triple.ofPres (Pres.ite (Pres.raise _) (Pres.pure _))) fun _ => ?_
+  refine Triple.bind (R := fun _ w => Early w ∧ init = Handshake.expected) ?_ fun _ => ?_
+  · by_cases hi : init = Handshake.expected
+    · simp only [hi, ne_eq, not_true_eq_false, ↓reduceIte]
+      exact Triple.pure _ fun w hw => ⟨hw, trivial⟩
+    · simp only [ne_eq, hi, not_false_eq_true, ↓reduceIte]
+      exact Triple.raise _ fun w hw => hw
+  · exact Triple.pure _ fun w hw => hw
+
 theorem startup_triple (sc : Script) : Triple Early (startup sc) (fun _ => Verified) Early := by
   rw [startup_eq]
-  refine Triple.bind (Triple.ofPres (pres_startupChecks Early.chain sc)) fun _ => ?_
+  refine Triple.bind (startupChecks_triple sc) fun init => ?_
   refine Triple.mark fun w hw => ?_
-  refine ⟨Early.chain.push _ w (by simp [Plain]) hw, ?_⟩
-  simp [monOf_snoc, Mon.step]
+  obtain ⟨⟨⟨hb, hcl, hdd⟩, hcb, hst⟩, hi⟩ := hw
+  subst hi
+  refine ⟨⟨⟨?_, ?_, ?_⟩, hcb, ?_⟩, ?_⟩ <;>
+    simp [monOf_snoc, Mon.step, Mon.core, hb, hcl, hdd, hst]
 
 theorem register_triple (sc : Script) : Triple Verified (register sc) (fun _ => Inv) Inv := by
   rw [register_eq]
@@ -173,42 +193,121 @@ theorem register_triple (sc : Script) : Triple Verified (register sc) (fun _ => 
     refine Triple.modifyW fun w hw => ?_
     exact ⟨hw.1.1, fun _ => ⟨hw.2, hw.1.2.2⟩⟩
 
-theorem main_triple (sc : Script) : Triple Early (main_ sc) (fun _ => Inv) Inv := by
+/-- ssh was seen dead: nothing was wrong up to here, the channel is still open. -/
+def DeadEnd (w : World) : Prop :=
+  (monOf w.trace).bad = false ∧ (monOf w.trace).closed = false ∧ (monOf w.trace).dead = true
+
+/-- `_main` may end in a live state or right after the probe that saw ssh dead. -/
+def Ended (w : World) : Prop := Inv w ∨ DeadEnd w
+
+/-- The last event was the liveness probe. -/
+def Probed (w : World) : Prop := Inv w ∧ (monOf w.trace).lastProbe = true
+
+theorem checkAlive_triple (sc : Script) (st : Option Step) :
+    Triple Inv (checkAlive sc st) (fun _ => Probed) Ended := by
+  unfold checkAlive
+  have hb : Triple Inv (do
+      act sc (if sc.cfg.daemon then Ev.kill else Ev.poll)
+      match st with
+      | none => raise sc.cfg.endExc
+      | some s =>
+        modifyW (deliver s)
+        match s.alive with
+        | some _ => do
+          mark .sshDead
+          raise (if sc.cfg.daemon then Exc.oserr Gen.C12.ESRCH else Exc.fatal)
+        | none => pure ()) (fun _ => Probed) Ended := by
+    refine Triple.bind (R := fun _ => Probed) ?_ fun _ => ?_
+    · refine Triple.act fun w hw => ?_
+      have hp : Plain (if sc.cfg.daemon then Ev.kill else Ev.poll) := by split <;> simp [Plain]
+      have hi := Inv.chain.act _ w hp hw
+      refine ⟨⟨hi, ?_⟩, Or.inl hi⟩
+      simp only [actW_trace, monOf_snoc, Mon.step]
+      split <;> rfl
+    · split
+      · exact Triple.raise _ fun w hw => Or.inl hw.1
+      · refine Triple.bind (R := fun _ => Probed) ?_ fun _ => ?_
+        · refine Triple.modifyW fun w hw => ?_
+          exact ⟨Inv.chain.frame _ (by by_frame) w hw.1, hw.2⟩
+        · split
+          · refine Triple.bind (R := fun _ => DeadEnd) ?_ fun _ => Triple.raise _ fun w hw => Or.inr hw
+            refine Triple.mark fun w hw => ?_
+            obtain ⟨⟨⟨hb, hcl, hdd⟩, _⟩, _⟩ := hw
+            refine ⟨?_, ?_, ?_⟩ <;> simp [monOf_snoc, Mon.step, Mon.core, hb, hcl]
+          · exact Triple.pure _ fun w hw => hw
+  exact Triple.ite (Triple.mapExc hb) hb
+
+theorem runonce_triple (sc : Script) (i : Nat) : Triple Probed (runonce sc i) (fun _ => Inv) Ended := by
+  unfold runonce
+  refine Triple.bind (R := fun _ => Inv) ?_ fun _ =>
+    (Triple.ofPres (pres_runonceBody Inv.chain sc (Inv.routesOk sc))).conseq (fun _ h => h) (fun _ _ h => h)
+      (fun _ h => Or.inl h)
+  refine Triple.mark fun w hw => ?_
+  obtain ⟨⟨⟨hb, hcl, hdd⟩, h3⟩, hp⟩ := hw
+  refine ⟨⟨?_, ?_, ?_⟩, fun hcb => ?_⟩
+  · simp [monOf_snoc, Mon.step, Mon.core, hb, hp, hdd]
+  · simp [monOf_snoc, Mon.step, Mon.core, hcl]
+  · simp [monOf_snoc, Mon.step, Mon.core, hdd]
+  · simpa [monOf_snoc, Mon.step, Mon.core] using h3 hcb
+
+theorem mainLoop_triple (sc : Script) (steps : List Step) (i : Nat) :
+    Triple Inv (mainLoop sc i steps) (fun _ => Inv) Ended := by
+  induction steps generalizing i with
+  | nil =>
+    unfold mainLoop
+    exact (checkAlive_triple sc none).conseq (fun _ h => h) (fun _ _ h => h.1) (fun _ h => h)
+  | cons s rest ih =>
+    unfold mainLoop
+    refine Triple.bind (checkAlive_triple sc _) fun _ => ?_
+    refine Triple.bind (runonce_triple sc i) fun _ => ?_
+    refine Triple.bind (R := fun _ => Inv) ?_ fun _ => ih (i + 1)
+    exact (Triple.ofPres (Pres.ite (pres_checkFullness Inv.chain) (Pres.pure _))).conseq (fun _ h => h)
+      (fun _ _ h => h) (fun _ h => Or.inl h)
+
+theorem main_triple (sc : Script) : Triple Early (main_ sc) (fun _ => Inv) Ended := by
   unfold main_
-  refine Triple.bind ((startup_triple sc).conseq (fun _ h => h) (fun _ _ h => h) (fun _ h => h.inv)) fun _ => ?_
-  refine Triple.bind (register_triple sc) fun _ => ?_
-  exact Triple.ofPres (pres_mainLoop Inv.chain sc (Inv.routesOk sc) sc.steps 0 fun j _ w h => Inv.run j w h)
+  refine Triple.bind ((startup_triple sc).conseq (fun _ h => h) (fun _ _ h => h) (fun _ h => Or.inl h.inv)) fun _ => ?_
+  refine Triple.bind ((register_triple sc).conseq (fun _ h => h) (fun _ _ h => h) (fun _ h => Or.inl h)) fun _ => ?_
+  exact mainLoop_triple sc sc.steps 0
 
 theorem initWorld_early (sc : Script) : Early (initWorld sc) := by
-  refine ⟨⟨rfl, rfl⟩, rfl, rfl⟩
+  refine ⟨⟨rfl, rfl, rfl⟩, rfl, rfl⟩
 
-/-- The monitor invariant holds when `_main` ends, however it ends. -/
-theorem main_inv (sc : Script) : Inv (main_ sc (initWorld sc)).2 :=
-  (main_triple sc).world (fun _ _ h => h) (fun _ h => h) _ (initWorld_early sc)
+/-- When `_main` ends, however it ends, the monitor has not complained and the channel is open. -/
+theorem main_ended (sc : Script) : Ended (main_ sc (initWorld sc)).2 :=
+  (main_triple sc).world (fun _ _ h => Or.inl h) (fun _ h => h) _ (initWorld_early sc)
 
 theorem foldl_afterClose (post : List Ev) (m : Mon) (h : ∀ x ∈ post, afterClose x) :
-    post.foldl Mon.step m = m := by
+    (post.foldl Mon.step m).bad = m.bad ∧ (post.foldl Mon.step m).closed = m.closed := by
   induction post generalizing m with
-  | nil => rfl
+  | nil => exact ⟨rfl, rfl⟩
   | cons e rest ih =>
     simp only [List.foldl_cons]
-    have he : m.step e = m := by
-      rcases h e (by simp) with h | h | h <;> subst h <;> rfl
-    rw [he]
-    exact ih m fun x hx => h x (List.mem_cons_of_mem _ hx)
+    have he : (m.step e).bad = m.bad ∧ (m.step e).closed = m.closed := by
+      rcases h e (by simp) with h | h | h <;> subst h <;> exact ⟨rfl, rfl⟩
+    have := ih (m.step e) fun x hx => h x (List.mem_cons_of_mem _ hx)
+    exact ⟨this.1.trans he.1, this.2.trans he.2⟩
 
 /-- The monitor accepts the trace of every whole session. -/
 theorem run_okTrace (sc : Script) : okTrace (run sc).2.trace = true := by
   unfold run mainTail
   rw [tryFinally_world]
   obtain ⟨post, h1, h2⟩ := finPart_closed sc (main_ sc (initWorld sc)).2
-  obtain ⟨⟨hb, hcl⟩, _⟩ := main_inv sc
-  have hm : monOf ((finPart sc (main_ sc (initWorld sc)).2).2.trace) =
-      { monOf (main_ sc (initWorld sc)).2.trace with closed := true } := by
-    rw [h1, monOf_append, List.foldl_cons, foldl_afterClose post _ h2, monOf_append]
-    cases sc.cfg.daemon <;> simp [Mon.step, hb, hcl]
+  have hbc : (monOf (main_ sc (initWorld sc)).2.trace).bad = false ∧
+      (monOf (main_ sc (initWorld sc)).2.trace).closed = false := by
+    rcases main_ended sc with h | h
+    · exact ⟨h.1.1, h.1.2.1⟩
+    · exact ⟨h.1, h.2.1⟩
+  obtain ⟨hb, hcl⟩ := hbc
+  have hm : (monOf ((finPart sc (main_ sc (initWorld sc)).2).2.trace)).bad = false ∧
+      (monOf ((finPart sc (main_ sc (initWorld sc)).2).2.trace)).closed = true := by
+    rw [h1, monOf_append, List.foldl_cons]
+    obtain ⟨f1, f2⟩ := foldl_afterClose post
+      ((monOf ((main_ sc (initWorld sc)).2.trace ++ if sc.cfg.daemon = true then [Ev.rc0] else [])).step Ev.close) h2
+    rw [f1, f2, monOf_append]
+    cases sc.cfg.daemon <;> simp [Mon.step, Mon.core, hb, hcl]
   unfold okTrace
-  rw [hm]
-  simp [hb]
+  rw [hm.1, hm.2]
+  rfl
 
 end Sshuttle.ClientMain
